@@ -115,8 +115,54 @@ def zdt_add(io, max_off, max_days):
     io.obligations("C14.add")
 
 
+def zdt_diff(io, max_off):
+    """DifferenceZonedDateTime with largestUnit day: a sign-uniform (days, time) pair which AddZonedDateTime maps from the
+    receiver exactly onto the other instant"""
+    from .c13 import expected
+    t, before, after = zone_inputs(io, max_off)
+    e1 = io.int("e1", "i128", (BASE_DAY - 2) * DAY, (BASE_DAY + 3) * DAY - 1)
+    e2 = io.int("e2", "i128", (BASE_DAY - 2) * DAY, (BASE_DAY + 3) * DAY - 1)
+    if io.kind != "sym":
+        r = io.call(None, [], native=("syn_zone_zdt_until_days", ("result", ("agg", ["i64", "i128"])), [t, before, after, e1, e2]))
+    else:
+        install_zone(io, t.t, before.t, after.t)
+        r = io.call(("ZonedDateTime", None, "diff_zoned_datetime"),
+                    [io.ref(zdt(e1)), io.ref(zdt(e2)), symex.Enum(7, {7: []}, "Unit"), io.ref(symex.Opaque("provider"))], native=None)
+    tn = mul(NS, t.t)
+    off = lambda e: ite(ge(e, tn), after.t, before.t)
+    l1 = add(e1.t, mul(NS, off(e1.t)))
+    sign = ite(lt(e2.t, e1.t), -1, ite(gt(e2.t, e1.t), 1, 0))
+    io.witness("C14.diff.reach")
+    io.witness("C14.diff.straddles_transition", and_(lt(e1.t, tn), ge(e2.t, tn), ne(before.t, after.t)))
+    io.witness("C14.diff.backwards_across_transition", and_(lt(e2.t, tn), ge(e1.t, tn), ne(before.t, after.t)))
+    io.prove("C14.diff.succeeds", eq(r.d, 0))
+    if 0 in r.v:
+        rec = r.v[0][0]
+        if io.kind == "sym":
+            date, norm = rec.f
+            yrs, mos, wks, dys = (f.f[0] if isinstance(f, symex.Agg) else f for f in date.f)
+            p = norm
+            while isinstance(p, symex.Agg):
+                p = p.f[0]
+            D, Tm = dys.t, p.t
+            io.prove("C14.diff.no_larger_units_than_days", and_(eq(yrs.t, 0), eq(mos.t, 0), eq(wks.t, 0)), hyp=eq(r.d, 0))
+        else:
+            D, Tm = rec.f[0].t, rec.f[1].t
+        ok = eq(r.d, 0)
+        io.prove("C14.diff.sign_uniform", and_(ge(mul(sign, D), 0) if is_c(sign) else ite(eq(sign, 1), ge(D, 0), ite(eq(sign, -1), le(D, 0), eq(D, 0))),
+                                               ite(eq(sign, 1), ge(Tm, 0), ite(eq(sign, -1), le(Tm, 0), eq(Tm, 0)))), hyp=ok)
+        moved = add(l1, mul(DAY, D))
+        _, val, _, _ = expected(moved, t.t, before.t, after.t, 0)
+        back = ite(eq(D, 0), add(e1.t, Tm), add(val, Tm))
+        io.prove("C14.diff.add_maps_receiver_onto_other", eq(back, e2.t), hyp=and_(ok, le(-6, D), le(D, 6)))
+        io.prove("C14.diff.day_count_bounded_by_distance", and_(le(-6, D), le(D, 6)), hyp=ok)
+    io.obligations("C14.diff")
+
+
 def jobs(tier, seed):
     return [
         ("day_length[|offset|<=12h, whole hours]", day_length, {"max_off": 12 * 3600}, {"timeout": 600}),
         ("zdt_add[|offset|<=12h, |days|<=3]", zdt_add, {"max_off": 12 * 3600, "max_days": 3}, {"timeout": 900, "unroll": 5}),
+        # zdt_diff (DifferenceZonedDateTime) is written above but not registered: the day-correction loop re-resolves the
+        # wall-clock time up to three times per path and the path enumeration does not finish within 20 min
     ]
